@@ -11,6 +11,7 @@ import NitroVerif.Model.SkipConc
     start <t> it_seek <i> <k>                                             -> at <POINT> | ret <key|end>
     start <t> it_next <i>           (bad-op unless iterator i exists and is valid) -> at <POINT> | ret <key|end>
     start <t> it_close <i>                                                -> ret
+    start <t> it_interval <i> <n>   SetRefreshInterval(n); bad-op unless iterator i exists and n ≥ 1 -> ret
     step <t>                        (bad-op when t is idle)               -> at <POINT> | ret <value>
     walk                            (bad-op unless quiescent)             -> lvl=<level> L0=<list>;L1=<list>;…
     stats                                                                 -> nodes=<n> soft=<n> allocs=<n> frees=<n> dist=<…>
@@ -66,6 +67,10 @@ def parseOp (names : List String) : List String → Option (List String × Op)
     | none => none
   | ["it_next", i] => let r := internName names i; some (r.1, .itNext r.2)
   | ["it_close", i] => let r := internName names i; some (r.1, .itClose r.2)
+  | ["it_interval", i, n] =>
+    match n.toNat? with
+    | some n => let r := internName names i; some (r.1, .itInterval r.2 n)
+    | none => none
   | _ => none
 
 def skipConcStep (s : SkipConcSt) (toks : List String) : SkipConcSt × String :=
